@@ -22,6 +22,7 @@ EXPLANATION = (
     "success paths loop range(n) over exactly one execute_systems call. Model.__getattr__('timestep') returns the "
     "scheduler's clock and Model holds no second copy. R-FWD: window parameters reach System's fields.")
 EXPLANATION += (" Premises re-checked on every run: C01's pairing/discipline rules (each registered system queued exactly once) and all of C05 (every queued system visited once per step).")
+EXPLANATION += (" The clock is not advanced on a path that a system's exception aborts. Premise: C17's `execute-collects-unconditionally`.")
 ASSUMPTIONS = [
     "G6: user systems do not write scheduler fields directly; frequency >= 1 (quantifier)",
     "Python's % with positive modulus; divisibility is invariant under negation of the dividend",
@@ -160,6 +161,24 @@ def run(cx: Cx):
                             function=fn.qualname)
     cx.floor('scheduler iterations examined', n_iter_checked, 1)
 
+    # a step that is abandoned by an exception has not happened: the clock stays, so that the driver's retry replays the timestep and
+    # the systems that had not run yet (the collectors, lowest priority) still see it (`finally: timestep += 1` skips them for good)
+    n_rp = 0
+    advanced = None
+    for p in cx.walker.paths(fn, WalkOptions(unroll=1)):
+        rz = [e for e in p.events if e.kind == 'raise']
+        if p.end != 'raise' or not rz or rz[-1].data.get('direct'):
+            continue
+        n_rp += 1
+        if any(e.kind == 'store' and e.data.get('loc') == TLOC for e in p.events):
+            advanced = advanced or p
+    if advanced is not None:
+        cx.violation('R-ORDER', fn.qualname, 'clock-stays-when-a-step-is-abandoned',
+                     f"execute_systems advances the clock on a path that ends in an exception raised by a system [{advanced.cond!r}]: the "
+                     f"systems behind it never run at that timestep, not even when the caller catches the error and steps again",
+                     where=cx.where(fn, advanced.last.line), path=advanced.lines())
+    elif n_rp:
+        cx.ok('R-ORDER', f"the clock is not advanced on a step that a system aborts ({n_rp} raising path(s))", where=cx.where(fn), function=fn.qualname)
     # ------------------------------------------------------------ clause 3: clock discipline
     sites = cx.effects.sites_of(TLOC)
     for s in sites:
@@ -425,6 +444,8 @@ def run(cx: Cx):
     include_premises(cx, ['C01'], 'a system runs once per due timestep only if it is queued exactly once',
                      only=lambda o: o.rule in ('R-PAIR', 'R-DISC', 'R-NONE', 'R-ATOMIC'))
     include_premises(cx, ['C05'], 'a system runs once per due timestep only if the scheduler visits every queued system once')
+    include_premises(cx, ['C17'], 'the systems the package ships (the collectors) do their work whenever the scheduler runs them: no second '
+                     'look at a clock of their own', only=lambda o: 'execute-collects-unconditionally' in o.key)
 
 
 def _passed_entry_check(cx: Cx, p):
